@@ -117,6 +117,13 @@ def run(rep, tier, seed):
         for (gr, i, text, tr), b in zip(chunk, ans):
             n_glr_trees += 1
             if b != [True]:
+                nsol = int(gr.results.get(("GLR", i), "FOREST 0").split(" ")[1])
+                if nsol > 1 and shared_extent_class(parse_sexp(tr), text.encode()):
+                    rep.violation("glr-spans-shared-extent", "ambiguous forest: a shared node carries the span of another "
+                                  "alternative (its first child here is an empty node placed before skipped layout)",
+                                  dict(grammar=gr.case.grammar, algo="GLR", table="LALR_RN", flags=gr.case.flags, input=text,
+                                       real=tr, solutions=nsol))
+                    continue
                 rep.violation("glr-spans", "a tree of the forest returned by the real GLR parser violates the span/position "
                               "statement (spans_ok_b)", dict(grammar=gr.case.grammar, algo="GLR", table="LALR_RN",
                                                              flags=gr.case.flags, input=text, real=tr))
@@ -138,6 +145,50 @@ def run(rep, tier, seed):
     rep.assumptions = ["recognizers return a prefix of their argument (measured per input; violated inputs skipped)",
                        "GLR: the first three trees of every forest (inputs up to 40 bytes) are span-checked; C03/C07 compare "
                        "forests with the oracle / with the LR tree"]
+
+
+def shared_extent_class(t, data):
+    """Known class glr-spans-shared-extent: the tree comes from an AMBIGUOUS forest and the only nodes that violate the
+    span statement are inner nodes whose START is later than the start of their first child, where everything under
+    the node that lies before the node's start is empty nodes (the node carries the extent of another packed
+    alternative that begins with a token); ends, leaves (value = slice at span, order) are all as stated."""
+    ok = [True]
+    found = [False]
+    prev_end = [0]
+
+    def leaves_start(n):
+        if n[0] == "T":
+            return [n[3][0]]
+        r = []
+        for c in n[2]:
+            r.extend(leaves_start(c))
+        return r
+
+    def walk(n):
+        if n[0] == "T":
+            st, en = n[3][0], n[4][0]
+            if st < prev_end[0] or en < st or bytes(n[6]) != data[st:en]:
+                ok[0] = False
+            prev_end[0] = en
+            return
+        st, en = n[3][0], n[4][0]
+        ch = n[2]
+        if not ch:
+            if st != en:
+                ok[0] = False
+            return
+        for c in ch:
+            walk(c)
+        c0, cl = ch[0], ch[-1]
+        if en != cl[4][0]:
+            ok[0] = False
+        if st != c0[3][0]:
+            if st > c0[3][0] and all(x >= st for x in leaves_start(n)):
+                found[0] = True
+            else:
+                ok[0] = False
+    walk(t)
+    return ok[0] and found[0]
 
 
 def classify_span_failure(out):
